@@ -3,6 +3,7 @@ package main
 import (
 	"fmt"
 	"go/token"
+	"go/types"
 	"strings"
 
 	"golang.org/x/tools/go/ssa"
@@ -85,15 +86,71 @@ func runC03(c *Ctx) {
 		c.Floor("C03.announce/gnmiUpdate-sites", len(sites), 3)
 		// gnmiRemove results: unconditional loop body
 		nR := 0
-		for _, ci := range callsIn(GU) {
+		selfAnnounce := gr.Signature.Results().Len() == 0
+		if selfAnnounce {
+			// gnmiRemove hands the removed leaves to the client itself: replayed with one removed leaf, every path
+			// that walks the tree calls the client exactly once, with an element of the collected leaves
+			c.Analysed(fnName(gr))
+			isLeaves := func(v ssa.Value) bool {
+				u, ok := v.(*ssa.UnOp)
+				if !ok || u.Op != token.MUL {
+					return false
+				}
+				al, ok := u.X.(*ssa.Alloc)
+				if !ok {
+					return false
+				}
+				sl, ok := deref(al.Type()).Underlying().(*types.Slice)
+				return ok && isNamed(sl.Elem(), "ctree", "Leaf")
+			}
+			e := &PPA{MaxVisits: 3,
+				IntHook: func(e *PPA, st *State, rv RV) (int64, bool) {
+					if call, ok := rv.V.(*ssa.Call); ok {
+						if la, ok := lenArg(call); ok && isLeaves(e.Resolve(st, RV{rv.F, la}).V) {
+							return 1, true
+						}
+					}
+					return 0, false
+				},
+				Watch: func(ev *Ev) bool { return clientCall(ev) || ev.Label == "call:(*ctree.Tree).WalkDeleted" }}
+			e.Run(gr)
+			c.Paths += len(e.Paths)
+			n := 0
+			for i := range e.Paths {
+				p := &e.Paths[i]
+				if p.End != "return" || !p.Has(lbl("call:(*ctree.Tree).WalkDeleted")) {
+					continue
+				}
+				n++
+				k := p.Count(clientCall)
+				okArg := false
+				if ci := p.Index(0, clientCall); ci >= 0 && len(p.Trace[ci].Args) == 1 {
+					if u, ok := p.Trace[ci].Args[0].V.(*ssa.UnOp); ok {
+						if ia, ok := u.X.(*ssa.IndexAddr); ok && isLeaves(ia.X) {
+							okArg = true
+						}
+					}
+				}
+				c.Check(k == 1 && okArg, "C03.announce", fnName(gr), "removed leaves announced by gnmiRemove itself (one removed leaf => one client call with it)", P.Pos(gr.Pos()), fmt.Sprintf("%d client calls, argument is an element of the collected leaves=%v; path: %s", k, okArg, p.String()))
+			}
+			c.Floor("C03.announce/gnmiRemove-self", n, 1)
+		}
+		var unitCalls []ssa.CallInstruction
+		for _, uf := range unitFns(P, GU, gu, gr) {
+			unitCalls = append(unitCalls, callsIn(uf)...)
+		}
+		for _, ci := range unitCalls {
 			if staticCallee(ci.Common()) != gr {
 				continue
 			}
 			nR++
+			if selfAnnounce {
+				continue
+			}
 			call := ci.(*ssa.Call)
 			ok := false
 			detail := "result not ranged into the client"
-			for _, cc := range callsIn(GU) {
+			for _, cc := range unitCalls {
 				com := cc.Common()
 				if com.IsInvoke() || staticCallee(com) != nil || !loadOfField(com.Value, a.fClient) || len(com.Args) != 1 {
 					continue
@@ -853,4 +910,28 @@ func sameElemLoad(a, b ssa.Value) bool {
 	ia, ok := ua.X.(*ssa.IndexAddr)
 	ib, ok2 := ub.X.(*ssa.IndexAddr)
 	return ok && ok2 && ia.X == ib.X && ia.Index == ib.Index && ia.Block() == ib.Block()
+}
+
+// unitFns: root together with the unexported same-package functions that only root (transitively) calls -
+// the pieces a maintainer may split a long function into.  The named anchors are never part of the unit.
+func unitFns(P *Prog, root *ssa.Function, anchors ...*ssa.Function) []*ssa.Function {
+	out := []*ssa.Function{root}
+	seen := map[*ssa.Function]bool{root: true}
+	for _, a := range anchors {
+		seen[a] = true
+	}
+	for i := 0; i < len(out); i++ {
+		for _, ci := range callsIn(out[i]) {
+			g := staticCallee(ci.Common())
+			if g == nil || seen[g] || g.Blocks == nil || g.Pkg != root.Pkg || g.Parent() != nil || isExportedFn(g) {
+				continue
+			}
+			if !onlyFrom(P, g, root, 0) {
+				continue
+			}
+			seen[g] = true
+			out = append(out, g)
+		}
+	}
+	return out
 }
